@@ -40,7 +40,7 @@ void harness(void)
 #elif defined(RD_destroy)
   handle_type child = nondet_int();
   REPROC_REDIRECT type = (REPROC_REDIRECT) nondet_int();
-  __CPROVER_assume(IMPLIES(child != -1 && DESTROY_CLOSES(type), IS_OPEN(child) && IS_LIB(child)));
+  __CPROVER_assume(IMPLIES(child != -1 && DESTROY_CLOSES(type), g.in_child || (IS_OPEN(child) && IS_LIB(child))));
 #include "gen/pre_redirect_destroy.inc"
   handle_type verif_rv = redirect_destroy(child, type);
 #include "gen/post_redirect_destroy.inc"
